@@ -507,6 +507,12 @@ func c13MroString(s string) string {
 // pipeline returning them.  mapped: "" | "array" | "map" (top-level map call).
 // viaInner: the outputs pass through a sub-pipeline first.
 func (s *c13Sig) mro(mapped string, viaInner bool) string {
+	return s.mroDup(mapped, viaInner, false)
+}
+
+// mroDup: dupReturn additionally binds every stage output to a SECOND top-level
+// output `<id>_2` of the same type (one file, two outputs).
+func (s *c13Sig) mroDup(mapped string, viaInner, dupReturn bool) string {
 	var sb strings.Builder
 	for _, f := range s.Filetypes {
 		sb.WriteString("filetype " + f + ";\n")
@@ -541,9 +547,19 @@ func (s *c13Sig) mro(mapped string, viaInner bool) string {
 	for _, p := range s.Params {
 		sb.WriteString(c13MroMember(p, "out "))
 	}
+	if dupReturn {
+		for _, p := range s.Params {
+			sb.WriteString(c13MroMember(c13Member{Id: p.Id + "_2", Ty: p.Ty}, "out "))
+		}
+	}
 	sb.WriteString(")\n{\n    call " + callee + "(\n        x = self.x,\n    )\n\n    return (\n")
 	for _, p := range s.Params {
 		sb.WriteString("        " + p.Id + " = " + callee + "." + p.Id + ",\n")
+	}
+	if dupReturn {
+		for _, p := range s.Params {
+			sb.WriteString("        " + p.Id + "_2 = " + callee + "." + p.Id + ",\n")
+		}
 	}
 	sb.WriteString("    )\n}\n\n")
 	switch mapped {
